@@ -21,9 +21,19 @@ type zzConn struct {
 	ctx     context.Context
 	local   string
 	streams []uint
+	// failWrites makes the transport refuse the next writes (a peer that went away)
+	failWrites int
 }
 
+type zzWriteErr struct{}
+
+func (zzWriteErr) Error() string { return "zz: write refused" }
+
 func (c *zzConn) Write(b []byte) (int, error) {
+	if c.failWrites > 0 {
+		c.failWrites--
+		return 0, zzWriteErr{}
+	}
 	c.written = append(c.written, append([]byte(nil), b...))
 	return len(b), nil
 }
